@@ -2833,6 +2833,7 @@ func TestCheck(t *testing.T) {
 		flipPhase(r)
 		poolBurst(r)
 		bigReplies(r)
+		binaryBackoffMonitor(r)
 	}
 	if only >= 0 || onlyCC >= 0 {
 		return
@@ -2863,6 +2864,8 @@ func TestCheck(t *testing.T) {
 		"flip_phase_queries_answered_by_main":                     2000,
 		"flip_phase_queries_answered_by_fallback":                 2000,
 		"big_replies_answered_by_main":                            8,
+		"binary-backoff_histories_main_stayed_out_during_backoff": 1,
+		"binary-backoff_control_histories_main_returned":          1,
 		"pool_bursts_judged":                                      2,
 		"pool_burst_queries_answered_by_main":                     2000,
 		"refreshes_with_production_listener_third_or_later_round": 40,
